@@ -287,6 +287,50 @@ func checkC13(p *Prog, r *Report) {
 		}
 	}
 
+	r.Begin("R-C13-BINDALL", "every declared parameter is bound in the macro context on every call (default value, or nil when there is none), so it shadows outer names", 1)
+	for _, f := range ma.bodies {
+		found := false
+		for _, b := range f.Blocks {
+			for _, in := range b.Instrs {
+				rg, ok := in.(*ssa.Range)
+				if !ok || !loadsField(rg.X, "tagMacroNode", "args") {
+					continue
+				}
+				found = true
+				var next *ssa.Next
+				for _, u := range refs(rg) {
+					if nx, ok := u.(*ssa.Next); ok {
+						next = nx
+					}
+				}
+				key := p.FuncName(f) + ":range args"
+				if next == nil || len(next.Block().Succs) != 2 {
+					r.Unk(key, p.InstrPos(in), "loop shape not recognised")
+					continue
+				}
+				var kex ssa.Value
+				for _, u := range refs(next) {
+					if ex, ok := u.(*ssa.Extract); ok && ex.Index == 1 {
+						kex = ex
+					}
+				}
+				header := next.Block()
+				ok2 := kex != nil && MustPassFrom(header.Succs[0], 0, header.Instrs[0], func(x ssa.Instruction) bool {
+					mu, isMu := x.(*ssa.MapUpdate)
+					return isMu && mu.Key == kex
+				})
+				if ok2 {
+					r.OK(key, p.InstrPos(in), "every iteration stores an entry under the parameter's name (or returns an error)")
+				} else {
+					r.Bad(key, p.InstrPos(in), "a declared parameter can stay unbound (no entry stored for it on some path): an omitted parameter without default would resolve to a same-named outer variable instead of being empty")
+				}
+			}
+		}
+		if !found {
+			r.Bad(p.FuncName(f)+":range args", p.Pos(f.Pos()), "the macro body executor does not walk the declared parameters (tagMacroNode.args) to bind them")
+		}
+	}
+
 	r.Begin("R-C13-POS", "the i-th argument is bound to the i-th parameter name, after (so overriding) the defaults", 1)
 	update := p.Method("Context", "Update")
 	for _, f := range ma.bodies {
@@ -435,28 +479,40 @@ func isRenderedBuffer(p *Prog, v ssa.Value) bool {
 func ruleC13Guard(p *Prog, a *Anchors, ma *macroAnchors, r *Report, rule string) {
 	r.Begin(rule, "every route into a macro body increments the depth counter and is reached only on the within-cap edge of a comparison with a constant whose other edge returns an error", 1)
 	for _, body := range ma.bodies {
-		// does the body executor guard itself?
+		// does the body executor guard itself? every call in it that can run template code (the body, default
+		// expressions, helpers doing either) must come after the increment and on the within-cap edge
 		selfOK := true
 		why := ""
+		nSites := 0
 		for _, b := range body.Blocks {
 			for _, in := range b.Instrs {
 				ci, ok := in.(ssa.CallInstruction)
-				if !ok || ci.Common().StaticCallee() == nil || ci.Common().StaticCallee().Name() != "Execute" || len(ci.Common().Args) == 0 || !loadsField(ci.Common().Args[0], "tagMacroNode", "wrapper") {
+				if !ok {
 					continue
 				}
+				if _, isDefer := in.(*ssa.Defer); isDefer {
+					continue
+				}
+				if !runsTemplateCode(p, ci, 3) {
+					continue
+				}
+				nSites++
 				if ok, w := guardedSite(p, body, in, ma.depthField); !ok {
 					selfOK = false
-					why = w
+					why = w + " (at " + p.InstrPos(in) + ": " + p.calleeName(ci.Common()) + ")"
 				}
 			}
 		}
+		if nSites == 0 {
+			selfOK = false
+			why = "no template-code call found"
+		}
 		if selfOK {
-			r.OK(p.FuncName(body)+":self-guarded", p.Pos(body.Pos()), "the body executor checks the depth itself: every caller is covered")
-			continue
+			r.OK(p.FuncName(body)+":self-guarded", p.Pos(body.Pos()), "the body executor checks the depth itself before any of its %d template-code calls: every caller is covered", nSites)
 		}
 		// otherwise every call site must be guarded in its function
 		callers := p.Callers(p.CG, body)
-		if len(callers) == 0 {
+		if len(callers) == 0 && !selfOK {
 			r.Bad(p.FuncName(body)+":no-callers", p.Pos(body.Pos()), "macro body executor neither guards itself (%s) nor has analysable callers", why)
 		}
 		for _, e := range callers {
@@ -471,6 +527,21 @@ func ruleC13Guard(p *Prog, a *Anchors, ma *macroAnchors, r *Report, rule string)
 					r.OK(key+":forward", p.InstrPos(e.Site), "argument list forwarded unchanged")
 				}
 			}
+			// the depth must be counted on a context that outlives the call (the one the macro was registered
+			// in): a context created per call starts at depth 0 every time
+			for _, arg := range e.Site.Common().Args {
+				if types.Identical(arg.Type(), types.NewPointer(a.ExecCtx)) {
+					rs := p.Roots(arg)
+					if allFresh(rs) {
+						r.Bad(key+":ctx", p.InstrPos(e.Site), "the macro body is run on an execution context created for this very call (%s): its depth counter starts at 0 on every call, so recursion through this route is unbounded", rootsString(rs))
+					} else {
+						r.OK(key+":ctx", p.InstrPos(e.Site), "depth is counted on the registering context (%s)", rootsString(rs))
+					}
+				}
+			}
+			if selfOK {
+				continue
+			}
 			if ok, w := guardedSite(p, g, e.Site, ma.depthField); ok {
 				r.OK(key, p.InstrPos(e.Site), "call site passes the depth guard")
 			} else {
@@ -478,4 +549,31 @@ func ruleC13Guard(p *Prog, a *Anchors, ma *macroAnchors, r *Report, rule string)
 			}
 		}
 	}
+}
+
+// runsTemplateCode: the call can execute template-supplied code: an interface call of Evaluate/Execute, a call of
+// (*NodeWrapper).Execute, or a static in-package callee that (transitively, bounded) contains one.
+func runsTemplateCode(p *Prog, ci ssa.CallInstruction, depth int) bool {
+	cc := ci.Common()
+	if cc.IsInvoke() {
+		return cc.Method.Name() == "Evaluate" || cc.Method.Name() == "Execute"
+	}
+	callee := cc.StaticCallee()
+	if callee == nil || !p.InPkg(callee) || callee.Blocks == nil {
+		return false
+	}
+	if callee.Name() == "Execute" || callee.Name() == "Evaluate" {
+		return true
+	}
+	if depth == 0 {
+		return false
+	}
+	for _, b := range callee.Blocks {
+		for _, in := range b.Instrs {
+			if c2, ok := in.(ssa.CallInstruction); ok && runsTemplateCode(p, c2, depth-1) {
+				return true
+			}
+		}
+	}
+	return false
 }
